@@ -39,4 +39,19 @@ let () = run_table [
          let pkv p d m h = (oracle "pk_verify" [hex_of_bytes p; hex_of_bytes d; hex_of_bytes m; hexnum_of_z h]) = "1" in
          pr_opt hexnum_of_z (verify_pair pkv (bytes_of_hex pub) (z_of_hexnum issues) (fails = "1") sg (subj_of s)))
     | _ -> failwith "args");
+  (* SubPackets as a state machine (Model/SubArea.v): sa_hist <areas + rest> <ops>   ops: H:ty:c:body | U:ty:c:body | C joined by ','
+     -> received hashed area or '-', received unhashed area or '-', number of hashed / unhashed subpackets, rest *)
+  "sa_hist", (function [p; ops] ->
+      (match sa_parse (bytes_of_hex p) with
+       | None -> "ERR"
+       | Some (st, rest) ->
+         let op it = match String.split_on_char ':' it with
+           | ["C"] -> Copy
+           | [k; ty; c; b] -> let x = ((z_of_hexnum ty, (c = "1")), bytes_of_hex b) in if k = "H" then SetH x else SetU x
+           | _ -> failwith "op" in
+         let ol = if ops = "-" then [] else List.map op (String.split_on_char ',' ops) in
+         let st' = sa_run st ol in
+         let o = function None -> "-" | Some r -> hex_of_bytes r in
+         String.concat " " [o st'.sa_hraw; o st'.sa_uraw; string_of_int (List.length st'.sa_h); string_of_int (List.length st'.sa_u); hex_of_bytes rest])
+    | _ -> failwith "args");
 ]
